@@ -191,6 +191,31 @@ func C06(c *core.Ctx) {
 			return []string{"balance", "--color=false", "-v", "CHF", "main.knut"}
 		})
 	}
+	// hand-booked Equity:Valuation:* accounts, several of them used for the first time on the same
+	// day (transcode opens such accounts itself, in the order it meets them)
+	for k := 0; k < c.Pick(3, 12); k++ {
+		k := k
+		for _, cmd := range [][]string{{"transcode", "-v", "CHF"}, {"balance", "--color=false", "-v", "CHF", "--days"}, {"register", "--color=false", "-v", "CHF", "-d"}} {
+			cmd := cmd
+			add("journal", fmt.Sprintf("hand-booked valuation accounts %d, %s", k, strings.Join(cmd, " ")), func(dir string) []string {
+				r := rand.New(rand.NewSource(c.Seed*7919 + int64(k)))
+				names := []string{"BankA", "BankB", "Depot", "Cash", "Gold", "Loan", "Pension"}
+				r.Shuffle(len(names), func(a, b int) { names[a], names[b] = names[b], names[a] })
+				names = names[:3+r.Intn(4)]
+				var b strings.Builder
+				for _, n := range names {
+					fmt.Fprintf(&b, "2020-01-01 open Assets:%s\n2020-01-01 open Equity:Valuation:%s\n", n, n)
+				}
+				b.WriteString("\n2020-01-01 price USD 0.95 CHF\n\n")
+				for i, n := range names {
+					day := 2 + (i%2)*r.Intn(2) // most of them on the same day
+					fmt.Fprintf(&b, "2020-01-%02d \"Revaluation %s\"\nEquity:Valuation:%s Assets:%s %d USD\n\n", day, n, n, n, 100*(1+r.Intn(9)))
+				}
+				os.WriteFile(filepath.Join(dir, "main.knut"), []byte(b.String()), 0o644)
+				return append(append([]string{}, cmd...), "main.knut")
+			})
+		}
+	}
 	// many files that all mention the same not-yet-registered commodities at the same time
 	for k := 0; k < c.Pick(2, 6); k++ {
 		k := k
